@@ -1925,3 +1925,126 @@ Proof.
       apply in_map_iff in Hin. destruct Hin as [c [Hc Hin]]. exists c. split; [exact Hin|]. rewrite Hc. reflexivity.
     + apply use_keyspace_result_panic in U. rewrite E in U. discriminate.
 Qed.
+
+(* ---- the trace property predicate vs the acceptor ---------------------------------------- *)
+
+
+Record RInv (p : pv) (a : acc) : Prop := mkR {
+  r_pend : map fst (inflight a) = pv_pend p;
+  r_cand : forall u k, pv_cand p = Some (u, k) -> inflight a = [(u, (k, true))];
+  r_est : forall k, pv_est p = Some k -> base a = [Some (canon k)] /\ inflight a = [];
+  r_open : forall q k, pv_lookup q (pv_open p) = Some k -> lookup_q q (open a) = Some [Some (canon k)]
+}.
+
+Lemma pv_lookup_filter q q' l :
+  pv_lookup q (filter (fun x => negb (Nat.eqb (fst x) q')) l) =
+  if Nat.eqb q q' then None else pv_lookup q l.
+Proof.
+  induction l as [|[q0 k0] r IH]; cbn [filter pv_lookup fst].
+  - destruct (Nat.eqb q q'); reflexivity.
+  - destruct (Nat.eqb q0 q') eqn:E0; cbn [negb pv_lookup].
+    + apply Nat.eqb_eq in E0. subst q0. rewrite IH. destruct (Nat.eqb q q'); reflexivity.
+    + rewrite IH. destruct (Nat.eqb q q0) eqn:E1; [|reflexivity].
+      apply Nat.eqb_eq in E1. subst q0. rewrite E0. reflexivity.
+Qed.
+
+Lemma lookup_q_map q n l :
+  lookup_q q (map (fun qa : nat * list (option name) => (fst qa, n :: snd qa)) l) =
+  option_map (cons n) (lookup_q q l).
+Proof.
+  induction l as [|[q0 al] r IH]; cbn [map lookup_q fst snd]; [reflexivity|].
+  destruct (Nat.eqb q q0); [reflexivity|exact IH].
+Qed.
+
+Lemma RInv_step p a e p' :
+  RInv p a -> pv_step p e = Some p' ->
+  match acc_step a e with Some a' => RInv p' a' | None => True end.
+Proof.
+  intros R H. destruct e as [u k|u ok|q|q x]; cbn [pv_step acc_step] in *.
+  - injection H as <-. constructor; cbn [pv_pend pv_cand pv_est pv_open inflight base open].
+    + cbn [map fst]. rewrite map_map. cbn [fst]. f_equal. rewrite <- (r_pend p a R). apply map_ext. reflexivity.
+    + intros u0 k0 Hc. pose proof (r_pend p a R) as Hp.
+      destruct (pv_pend p) eqn:E; [|discriminate]. injection Hc as <- <-.
+      destruct (inflight a); [reflexivity|discriminate].
+    + discriminate.
+    + intros q k0 Hq. discriminate.
+  - destruct (lookup_u u (inflight a)) as [[k clean]|] eqn:L; [|exact I].
+    assert (Hf : map fst (filter (fun x : nat * (ks * bool) => negb (Nat.eqb (fst x) u)) (inflight a)) =
+                 filter (fun x => negb (Nat.eqb x u)) (pv_pend p)).
+    { rewrite <- (r_pend p a R). clear. induction (inflight a) as [|y l IHl]; [reflexivity|].
+      cbn [filter map]. destruct (negb (Nat.eqb (fst y) u)); cbn [map]; rewrite IHl; reflexivity. }
+    destruct (pv_cand p) as [[u' k']|] eqn:C.
+    + pose proof (r_cand p a R u' k' C) as Hi. rewrite Hi in L. cbn [lookup_u] in L.
+      destruct (Nat.eqb u u') eqn:E; [|discriminate]. apply Nat.eqb_eq in E. subst u'.
+      injection L as <- <-. rewrite Nat.eqb_refl in H. injection H as <-.
+      assert (Hrest : filter (fun x : nat * (ks * bool) => negb (Nat.eqb (fst x) u)) (inflight a) = []).
+      { rewrite Hi. cbn [filter fst]. rewrite Nat.eqb_refl. reflexivity. }
+      destruct ok; cbn [andb].
+      * constructor; cbn [pv_pend pv_cand pv_est pv_open inflight base open].
+        -- exact Hf.
+        -- discriminate.
+        -- intros k0 Hk. injection Hk as <-. split; [reflexivity|exact Hrest].
+        -- apply (r_open p a R).
+      * constructor; cbn [pv_pend pv_cand pv_est pv_open inflight base open].
+        -- exact Hf.
+        -- discriminate.
+        -- discriminate.
+        -- apply (r_open p a R).
+    + injection H as <-.
+      assert (He : pv_est p = None).
+      { destruct (pv_est p) as [k0|] eqn:E; [|reflexivity].
+        destruct (r_est p a R k0 E) as [_ Hi]. rewrite Hi in L. discriminate. }
+      destruct (ok && clean); constructor; cbn [pv_pend pv_cand pv_est pv_open inflight base open];
+        try exact Hf; try discriminate; try (rewrite He; discriminate); try apply (r_open p a R).
+  - injection H as <-. constructor; cbn [pv_pend pv_cand pv_est pv_open inflight base open].
+    + apply (r_pend p a R).
+    + apply (r_cand p a R).
+    + apply (r_est p a R).
+    + intros q0 k0 Hq. cbn [lookup_q]. destruct (pv_est p) as [k|] eqn:E.
+      * cbn [pv_lookup] in Hq. destruct (Nat.eqb q0 q) eqn:Eq.
+        -- injection Hq as <-. destruct (r_est p a R k E) as [Hb _]. rewrite Hb. reflexivity.
+        -- rewrite pv_lookup_filter, Eq in Hq. apply (r_open p a R), Hq.
+      * rewrite pv_lookup_filter in Hq. destruct (Nat.eqb q0 q); [discriminate|]. apply (r_open p a R), Hq.
+  - destruct (pv_lookup q (pv_open p)) as [k|] eqn:L.
+    + rewrite (r_open p a R q k L). cbn [omem existsb].
+      destruct (oname_eqb x (Some (canon k))); [|discriminate]. injection H as <-. cbn [orb]. exact R.
+    + injection H as <-. destruct (lookup_q q (open a)); [|exact I]. destruct (omem x l); [exact R|exact I].
+Qed.
+
+Lemma RInv_viol_step p a e : RInv p a -> pv_step p e = None -> acc_step a e = None.
+Proof.
+  intros R H. destruct e as [u k|u ok|q|q x]; cbn [pv_step acc_step] in *; try discriminate.
+  - destruct (pv_cand p) as [[u' k']|]; [destruct (Nat.eqb u' u)|]; discriminate.
+  - destruct (pv_lookup q (pv_open p)) as [k|] eqn:L; [|discriminate].
+    rewrite (r_open p a R q k L). cbn [omem existsb].
+    destruct (oname_eqb x (Some (canon k))); [discriminate|]. reflexivity.
+Qed.
+
+Lemma viol_rejected tr : forall p a, RInv p a -> pv_run p tr = None -> acc_run a tr = None.
+Proof.
+  induction tr as [|e r IH]; intros p a R H; cbn [pv_run acc_run] in *; [discriminate|].
+  destruct (pv_step p e) as [p'|] eqn:E.
+  - pose proof (RInv_step p a e p' R E) as Hs. destruct (acc_step a e) as [a'|]; [|reflexivity].
+    apply (IH p' a' Hs H).
+  - rewrite (RInv_viol_step p a e R E). reflexivity.
+Qed.
+
+(* a trace on which the property fails is never accepted *)
+Lemma prop_viol_not_accepted k0 tr : prop_violb tr = true -> accept_trace k0 tr = false.
+Proof.
+  unfold prop_violb, accept_trace. intros H.
+  destruct (pv_run pv_init tr) eqn:E; [discriminate|].
+  rewrite (viol_rejected tr pv_init (acc_init k0)); [reflexivity| |exact E].
+  constructor; cbn; intros; try discriminate; reflexivity.
+Qed.
+
+(* for a finished use task: "other error" exactly when a covered connection answered with one *)
+Lemma answer_of_err_done r :
+  forallb (fun c => is_done (stat r c)) (cov r) = true ->
+  (answer_of r = PAErr <-> exists c t, In c (cov r) /\ stat r c = Done (CErr t)).
+Proof.
+  intros Hd. rewrite answer_of_err. rewrite forallb_forall in Hd. split.
+  - intros [c [Hc He]]. specialize (Hd c Hc). destruct (stat r c) as [| |[|t|t]] eqn:E; try discriminate.
+    exists c, t. split; [exact Hc|exact E].
+  - intros [c [t [Hc Hs]]]. exists c. split; [exact Hc|]. rewrite Hs. reflexivity.
+Qed.
